@@ -13,7 +13,10 @@ TraceNext ==
     /\ l <= Len(Trace)
     /\ l' = l + 1
     /\ LET e == Trace[l]
-           b == Broken(InpOf(e), SeqOf(e.out), e.mode)
+           b0 == Broken(InpOf(e), SeqOf(e.out), e.mode)
+           \* a draining server and a server outside every group get no traffic
+           b == IF b0 = "none" /\ (\E i \in 1..Len(e.drain) : e.drain[i] # 0) THEN "ZeroIff:draining"
+                ELSE IF b0 = "none" /\ (\E i \in 1..Len(e.nogroup) : e.nogroup[i] # 0) THEN "ZeroIff:nogroup" ELSE b0
        IN bad' = IF b = "none" THEN bad ELSE bad \cup {[id |-> e.id, inv |-> b, src |-> e.src]}
     /\ UNCHANGED inp
 
